@@ -224,6 +224,26 @@ ADDENDA = {
     "C19": "Also decided: the integer branch is interpreted for every index in [-2n-4, n+3] against list semantics (numpy's negative wrap modelled); __getitem__ writes no state; the piece removed on the terminal path is selected by the direction.",
     "C20": "Also decided: the callback list iterated is a fresh list on every path; reset() zeroes the counters unconditionally.",
 }
+ADDENDA2 = {
+    "C02": "the last slot of every nonlinear_roots return (which the integrator's acceptance test reads) is the residual norm.",
+    "C03": "the step used on a retry is bounded in magnitude by the requested one (integrate() records t + dTime unchecked).",
+    "C05": "tolerances changed through the system's setters reach every copy the integrators keep (the setters rebuild the integrator).",
+    "C06": "inside CubicHermiteInterp absolute times are only ever subtracted from one another (affine kind discipline, attribute kinds read from the constructor); "
+           "constant-index reads of the piece lists are unreachable while the store is None or empty; a piece index is decremented only where it is positive.",
+    "C07": "the list of recorded events is read only at last_occurrence[event index]; the vectorised root search certifies a root by a sign change (DIM discipline).",
+    "C08": "the duplicate test of one event reads only that event's own latest record.",
+    "C09": "the dense-output store emptied by a terminal event in the first step accepts the next piece (emptiness discipline).",
+    "C11": "the tolerance the stage equations are accepted to is relative to the state (re-judged).",
+    "C12": "no `except` outside integrate() absorbs arbitrary exceptions (specific classes or re-raise on every path).",
+    "C14": "the stopping width is the requested tolerance, never a tolerance scaled by the position of the bracket.",
+    "C16": "a copy of the wrapper (what OdeSystem makes) carries a hooked Jacobian in every reachable abstract state of the original.",
+    "C17": "shortcut returns of the Hermite value/gradient are taken at single values of the normalised coordinate only.",
+    "C18": "the initial step handed to OdeSystem is bounded above by max_step for every first_step.",
+    "C19": "the piece index of a time lookup cannot wrap around (index-decrement discipline in find_interval / find_interval_vec).",
+    "C20": "every iteration of the step loop reaches the callback loop (no break/continue/return before it), the terminal-event iteration included.",
+}
+for _k, _v in ADDENDA2.items():
+    ADDENDA[_k] = (ADDENDA.get(_k, "Also decided:") + " " + _v[0].upper() + _v[1:]) if _k in ADDENDA else "Also decided: " + _v
 for _k, _v in ADDENDA.items():
     CLAIMS[_k]["text"] = CLAIMS[_k]["text"] + " " + _v
 
